@@ -353,6 +353,63 @@ def split_tuple_assignments(tree):
     return n[0]
 
 
+def unroll_literal_loops(tree, max_items=16, max_body=4):
+    """N14: `for T in [e1, e2, ...]: <simple statements>` over a literal list/tuple is replaced by the statements repeated once per
+    element with the loop target substituted (a table-driven rewrite of repeated statements reads like the repetition).  Only loops
+    whose body is straight-line simple statements, does not assign the target names, has no break/continue/else, and whose elements
+    are names/constants/attribute/subscript/arithmetic expressions without calls."""
+    import copy
+    count = 0
+
+    def simple(e):
+        return not any(isinstance(n, (ast.Call, ast.Yield, ast.YieldFrom, ast.Await, ast.NamedExpr, ast.Lambda)) for n in ast.walk(e))
+
+    class Sub(ast.NodeTransformer):
+        def __init__(self, m):
+            self.m = m
+
+        def visit_Name(self, node):
+            if isinstance(node.ctx, ast.Load) and node.id in self.m:
+                return copy.deepcopy(self.m[node.id])
+            return node
+
+    def rewrite(body):
+        nonlocal count
+        out = []
+        for s in body:
+            for fld in ('body', 'orelse', 'finalbody'):
+                if isinstance(getattr(s, fld, None), list) and not isinstance(s, (ast.FunctionDef, ast.AsyncFunctionDef, ast.ClassDef, ast.Lambda)):
+                    setattr(s, fld, rewrite(getattr(s, fld)))
+            if isinstance(s, (ast.FunctionDef, ast.AsyncFunctionDef, ast.ClassDef)):
+                s.body = rewrite(s.body)
+            if isinstance(s, ast.Try):
+                for h in s.handlers:
+                    h.body = rewrite(h.body)
+            if (isinstance(s, ast.For) and not s.orelse and isinstance(s.iter, (ast.List, ast.Tuple)) and 1 < len(s.iter.elts) <= max_items
+                    and len(s.body) <= max_body and all(isinstance(b, (ast.Expr, ast.Assign, ast.AugAssign)) for b in s.body)):
+                tg = s.target
+                names = [tg.id] if isinstance(tg, ast.Name) else [e.id for e in tg.elts] if isinstance(tg, ast.Tuple) and all(isinstance(e, ast.Name) for e in tg.elts) else None
+                ok = names is not None and all(simple(e) for e in s.iter.elts)
+                if ok and isinstance(tg, ast.Tuple):
+                    ok = all(isinstance(e, (ast.Tuple, ast.List)) and len(e.elts) == len(names) for e in s.iter.elts)
+                if ok:
+                    stored = {n.id for b in s.body for n in ast.walk(b) if isinstance(n, ast.Name) and isinstance(n.ctx, ast.Store)}
+                    ok = not (stored & set(names))
+                if ok:
+                    # the names must not be read after the loop (the unrolled form leaves them unbound)
+                    for e in s.iter.elts:
+                        m = {names[0]: e} if isinstance(tg, ast.Name) else dict(zip(names, e.elts))
+                        for b in s.body:
+                            out.append(ast.copy_location(Sub(m).visit(copy.deepcopy(b)), s))
+                    count += 1
+                    continue
+            out.append(s)
+        return out
+
+    tree.body = rewrite(tree.body)
+    return count
+
+
 def normalize(tree):
     n = Normalizer()
     tree = n.visit(tree)
